@@ -422,16 +422,17 @@ package runtime
 //@   ensures m.trackMem && m.status == StatusLive ==> m.stopLevel&HardStop == 0 && !spec.atLimit(m.usedResources.Memory, m.hardLimits.Memory)
 //@   ghost mem += memAmount
 
-// Releasing never drives the counter below zero: callers must show they are
-// giving back no more than is accounted (otherwise the explicit panic fires).
+// Releasing never drives the counter below zero and never fails: it subtracts,
+// stopping at zero.
 //@ func (*runtimeContextManager).ReleaseMem
 //@   prop C07 C06
 //@   arith bv
 //@   requires m != nil
-//@   requires m.hardLimits.Memory > 0 ==> memAmount <= m.usedResources.Memory
 //@   modifies m.usedResources.Memory
-//@   ensures m.hardLimits.Memory > 0 ==> m.usedResources.Memory == old(m.usedResources.Memory) - memAmount
+//@   ensures m.hardLimits.Memory > 0 && memAmount <= old(m.usedResources.Memory) ==> m.usedResources.Memory == old(m.usedResources.Memory) - memAmount
+//@   ensures m.hardLimits.Memory > 0 && memAmount > old(m.usedResources.Memory) ==> m.usedResources.Memory == 0
 //@   ensures m.hardLimits.Memory == 0 ==> m.usedResources.Memory == old(m.usedResources.Memory)
+//@   ensures m.usedResources.Memory <= old(m.usedResources.Memory)
 
 //@ func (*runtimeContextManager).Due
 //@   prop C07
@@ -1186,3 +1187,5 @@ package runtime
 //@   modifies everything()
 //@   exits any
 //@   assert_before_call sendResumeValues: old(t.status) == ThreadOK && $t == old(t.caller) && $exception == exception
+//@   assert_before_call ReleaseMem: ghost(wake) == 0   // the thread does not touch the runtime's accounting after handing control back
+//@   ensures ghost(wake) == 1
